@@ -35,6 +35,9 @@ type scen struct {
 	moveFailed  bool   // the delivery being observed ended in a failed reorganisation (fall-back tip selection ran)
 	note        string // appended to the next property failure's text
 	mixed       bool   // random-mixed-bits stream: makeBlock picks light / heavy difficulty bits per block
+	reorder     bool   // random streams: makeBlock lists a block's transactions in a random order that keeps every in-block spend behind its source
+	lastOrdered []*btc.Tx // block kind "order": the block's transactions in the (valid) order of their creation
+	orderMode   int    // block kind "order": which misplacement (-1 = random), see misorder
 	quietBase   bool   // while true, the oracle is not asked for the full dump
 	bulk        bool   // long base chains: full observation only every 97th delivery, tip/outcome always
 	deepReorg   bool   // the scenario has built a fork deeper than the 2560 undo files kept (known finding deep-reorg-pruned-undo-panic)
@@ -61,7 +64,7 @@ const heavyBits = 0x201fffff
 // branches with different bits (heavier-but-not-taller forks) above a 100-block base.
 func newScen(name string, alloc bool, sub uint64, size int, opts chainkit.Opts, genesisBits uint32) *scen {
 	s := &scen{name: name, alloc: alloc, sub: sub, size: size, g: vlib.NewRng(sub ^ 0xC06), gTwin: vlib.NewRng(sub ^ 0x7717C06), byHash: map[[32]byte]*rBlock{},
-		keys: map[string]*chainkit.Key{}, badTx: map[[32]byte]bool{}, opts: opts}
+		keys: map[string]*chainkit.Key{}, badTx: map[[32]byte]bool{}, opts: opts, orderMode: -1}
 	if alloc {
 		s.mem = memory.NewAllocator()
 		s.fill = map[*[]byte]bool{}
